@@ -148,7 +148,7 @@ func runC20(seed uint64, n int, tier string, outDir string) []*Stats {
 		runUnderRaceDetector(seed, n/4+10, tmp, st)
 	}
 
-	st.Finish("seeded scenarios (splitmix64 from VERIF_SEED); distinct_nontrivial = distinct (kind, input) pairs")
+	st.Finish("seeded generator (splitmix64 from VERIF_SEED): contexts with random module graphs (diamonds, cycles, alias specifiers, suffix identities), 1-3 on-start and on-end callbacks, seeded delays/failures/re-entrant Resolve, write on/off, watch on/off, 1-5 client goroutines issuing Rebuild/Cancel/Edit/Watch/Dispose with random GOMAXPROCS; a fixed directed corpus (sequential edits, join, cancel, dispose, cancel-during-dispose, second-dispose; over the service: second-dispose, cancel-after-dispose, rebuild+cancel+dispose in one write); the real esbuild --service child driven by 1-4 concurrent clients with random request mixes, random ids below 2^31, junk fields of random value trees, stdin cut at a seeded byte offset. distinct_nontrivial = distinct (kind, history/transcript/packet) pairs in which at least one build ran or one packet crossed the pipe")
 	if err := os.WriteFile(filepath.Join(outDir, "c20_cases.v"), []byte(cf.String()), 0o644); err != nil {
 		panic(err)
 	}
